@@ -107,6 +107,22 @@ def execute(plan):
     first_sample = None
     gens = 0
     trig = ["", ""]
+    held = []          # (first sample number, the array object as delivered, a private copy): a caller assembling a stretch
+                       # from several requests keeps the blocks it received; a later request must not rewrite them
+
+    def hold(k0, arr_):
+        if np.size(arr_) <= 4096:
+            held.append((k0, arr_, np.array(arr_, copy=True)))
+            if len(held) > 3:
+                held.pop(0)
+
+    def check_held(step):
+        for k0, obj, cp in held:
+            if np.shape(obj) != np.shape(cp) or not np.array_equal(np.asarray(obj), cp):
+                viol("value", step, "the block delivered for samples %d..%d was rewritten by a later request: a stretch assembled from "
+                     "several requests no longer follows the model" % (k0, k0 + cp.shape[-1] - 1), kind="delivered_block_rewritten")
+                return False
+        return True
 
     def viol(inv, step, detail, **sig):
         sg = {"far_out": bool(k > 10 ** 6), "small_request": bool(sig.pop("small", False))}
@@ -153,6 +169,8 @@ def execute(plan):
                     psi = np.array(gen._psi_l, copy=True)
                     last = None
                     first_sample = None
+                    if not check_held(step):
+                        break
                     log.add("set_shape", ns)
                     bump(res["probes"], "shape_changed_through_the_setter")
                 elif o == "sibling":
@@ -197,7 +215,10 @@ def execute(plan):
                     if res["status"] != "ok":
                         break
                     gens += 1
+                    if not check_held(step):
+                        break
                     last = np.array(gen.get_samples(), copy=True)
+                    hold(k - nn, gen.get_samples())
                     log.add("burst", op["count"], nn, k)
                     bump(res["probes"], "burst_of_small_requests")
                 elif o == "generate":
@@ -230,6 +251,11 @@ def execute(plan):
                     if not (np.array_equal(gen._phi_l, phi) and np.array_equal(gen._psi_l, psi)):
                         viol("phases", step, "the generator's random phases changed during generation")
                         break
+                    if not check_held(step):
+                        break
+                    hold(k, s)
+                    if len(held) >= 2 and held[-2][2].shape == np.shape(s):
+                        bump(res["probes"], "equal_size_request_while_previous_block_held")
                     last = np.array(s, copy=True)
                     log.add("generate", nn, k, np.round(np.asarray(s).ravel()[:4], 6))
                     if small:
